@@ -12,6 +12,8 @@ CONSTANTS
   Monitor = FALSE
   IdleMax = 2
   DevMonNoFeed = FALSE
+  Reactive = FALSE
+  DevNoSignalOnError = FALSE
   DevCloseWriterFallback = TRUE
   Emit = FALSE
   Classes = {1}
